@@ -175,8 +175,12 @@ class DatabaseInterface(interfaces.Interface):
 
             # this can result in a double-error if the error occurred in the database
             # writing
-            self._db.writeToDB(self.r, "error")
-            self._db.close(False)
+            try:
+                self._db.writeToDB(self.r, "error")
+            finally:
+                # whatever happens to the error snapshot, leave the file (marked as not
+                # completed) where the user will look for it
+                self._db.close(False)
         except Exception:  # we're already responding to an error
             pass
 
